@@ -113,10 +113,18 @@ impl StopController {
                 let mut dfa = rx.dfa.lock().unwrap();
                 for &b in bytes {
                     buf.push(b);
-                    let state2 = dfa.transition(state, b);
+                    let mut state2 = dfa.transition(state, b);
                     // println!("state: {:?} -{:?}-> {:?}", state, b as char, state2);
+                    if state2.is_dead() {
+                        // `(?s:.*)` only matches valid UTF-8; a token sequence that breaks a
+                        // character (or a special token in the middle of one) ends up here.
+                        // Restart matching at this byte instead of panicking.
+                        state2 = dfa.transition(rx.initial_state, b);
+                        if state2.is_dead() {
+                            state2 = rx.initial_state;
+                        }
+                    }
                     state = state2;
-                    assert!(!state.is_dead());
                     if state.has_lowest_match() {
                         self.is_stopped = true;
                         rx.state = state;
